@@ -137,8 +137,8 @@ theorem path_fnorm {doc : Node} {pos : Nat} {r : RPos} (R : Resolved doc pos r) 
       have := fnormKids_of_fnorm ih
       exact (fnormKids_iff _).mp this _ hm
     cases hnode : r.node (k + 1) with
-    | text s m => simp [Node.kids, fnorm, fnormKids, chainOk]
-    | leaf t a m => simp [Node.kids, fnorm, fnormKids, chainOk]
+    | text s m => simp [Node.kids, fnorm, chainOk]
+    | leaf t a m => simp [Node.kids, fnorm, chainOk]
     | elem t a m kk =>
       rw [hnode, Node.norm_elem] at this
       exact this
